@@ -186,6 +186,11 @@ func runC04(c *Ctx) {
 				l = r.Range(m+1, 3*m+2) // longer than the core (AddWarrior does not limit the length)
 			}
 			w := &BWarrior{Code: make([]mars.Insn, l), Start: r.Intn(l), Off: r.Intn(3 * m)}
+			if nw <= 4 && r.Chance(1, 25) {
+				w.Code, w.Start = w.Code[:0], 0 // a warrior without code: spawning it only queues a task at its offset
+				l = 0
+				c.Inc("warriors_without_code")
+			}
 			for j := range w.Code {
 				w.Code[j] = randInsn(r, m, int(min(cfg.ReadLimit, cfg.CoreSize)), int(min(cfg.WriteLimit, cfg.CoreSize)))
 			}
